@@ -24,15 +24,17 @@ PROGRAMS = [
     ('duckdb_records', '@Engine("duckdb");\nT({a: 1, b: "x"}, [1, 2]);\nP(r.a, l, {k: r, m: l}) :- T(r, l);\nQ(x) List= y :- P(x, y, z);\n', 'Q'),
 ]
 
+# Log / Split / Length come from the shared function table and are overridden by some dialects only
+# (added after seeded change C13-r7: a per-dialect merge that leaked into the shared table)
 DIALECT_PROGRAMS = [
-    ('sqlite', '@Engine("sqlite");\nP(x, y % 3, x in [1, 2], "a" ++ "b") :- T(x, y), x / 2 > 1;\n', 'P'),
-    ('bigquery', '@Engine("bigquery");\nP(x, y % 3, x in [1, 2], "a" ++ "b") :- T(x, y), x / 2 > 1;\n', 'P'),
-    ('psql', '@Engine("psql");\nP(x, y % 3, "a" ++ "b") :- T(x, y), x / 2 > 1, x in [1, 2];\n', 'P'),
-    ('duckdb', '@Engine("duckdb");\nP(x, y % 3, x in [1, 2], "a" ++ "b") :- T(x, y), x / 2 > 1;\n', 'P'),
-    ('trino', '@Engine("trino");\nP(x, y % 3, x in [1, 2], "a" ++ "b") :- T(x, y), x / 2 > 1;\n', 'P'),
-    ('presto', '@Engine("presto");\nP(x, y % 3, x in [1, 2], "a" ++ "b") :- T(x, y), x / 2 > 1;\n', 'P'),
-    ('clickhouse', '@Engine("clickhouse");\nP(x, y % 3, "a" ++ "b") :- T(x, y), x / 2 > 1, x in [1, 2];\n', 'P'),
-    ('databricks', '@Engine("databricks");\nP(x, y % 3, "a" ++ "b") :- T(x, y), x / 2 > 1, x in [1, 2];\n', 'P'),
+    ('sqlite', '@Engine("sqlite");\nP(x, y % 3, x in [1, 2], "a" ++ "b", Log(x), Split("a,b", ","), Length("ab")) :- T(x, y), x / 2 > 1;\n', 'P'),
+    ('bigquery', '@Engine("bigquery");\nP(x, y % 3, x in [1, 2], "a" ++ "b", Log(x), Split("a,b", ","), Length("ab")) :- T(x, y), x / 2 > 1;\n', 'P'),
+    ('psql', '@Engine("psql");\nP(x, y % 3, "a" ++ "b", Log(x), Split("a,b", ","), Length("ab")) :- T(x, y), x / 2 > 1, x in [1, 2];\n', 'P'),
+    ('duckdb', '@Engine("duckdb");\nP(x, y % 3, x in [1, 2], "a" ++ "b", Log(x), Split("a,b", ","), Length("ab")) :- T(x, y), x / 2 > 1;\n', 'P'),
+    ('trino', '@Engine("trino");\nP(x, y % 3, x in [1, 2], "a" ++ "b", Log(x), Split("a,b", ","), Length("ab")) :- T(x, y), x / 2 > 1;\n', 'P'),
+    ('presto', '@Engine("presto");\nP(x, y % 3, x in [1, 2], "a" ++ "b", Log(x), Split("a,b", ","), Length("ab")) :- T(x, y), x / 2 > 1;\n', 'P'),
+    ('clickhouse', '@Engine("clickhouse");\nP(x, y % 3, "a" ++ "b", Log(x), Split("a,b", ","), Length("ab")) :- T(x, y), x / 2 > 1, x in [1, 2];\n', 'P'),
+    ('databricks', '@Engine("databricks");\nP(x, y % 3, "a" ++ "b", Log(x), Split("a,b", ","), Length("ab")) :- T(x, y), x / 2 > 1, x in [1, 2];\n', 'P'),
 ]
 
 COMMON = r'''
